@@ -7,7 +7,7 @@ import re
 from vlib import *
 FILES = ['include/urcu/rculist.h', 'include/urcu/rcuhlist.h', 'include/urcu/list.h', 'include/urcu/hlist.h', 'include/urcu/static/pointer.h']
 TRUSTED = ['Coq 8.16.1 kernel; no axioms', 'extraction: ExtrOcamlBasic only; ocaml/rculist_driver.ml', 'projection of traces onto model choices: tools/props/C18.py (trusted)',
-           'harness: scen_list.c, sched.c (simulated store buffer for the hooked publication stores; the private initialising stores of a new node are plain and take effect at once)',
+           'harness: scen_list.c, sched.c, plain_hooks.c (the scenario is compiled with -fsanitize=thread instrumentation and our own callbacks: every plain store to a list node or head is a scheduling point and goes through the simulated store buffer like the hooked publication stores)',
            'modelled: forward pointers only (prev pointers are never read by RCU readers); one updater; grace period = harness-provided wait for open sections']
 PROGS = ['a0a1t2d1r03ga4d2g/FfFF/fFfF', 'h0h1h2x1gh3x0x2g/HGHH/GHGH', 'a0t1a2d0d1d2ga3/FFFF/ffff/Ff', 'h4h5x5h6x4gx6/HHHH/GGGG', 't0t1r02d1gr23d3/FfFf/fFfF',
          'a0h0a1h1d0x0gd1x1g/FHFH/HFHF']
@@ -20,8 +20,13 @@ def nodeid(v, off):
     if v in ('&LH+0', 'LH+0', '&HH+0', 'HH+0'): return 0
     return None
 
+def is_next(loc, off):
+    return loc == ('LH+0' if off == OL else 'HH+0') or (loc.startswith('E+') and (int(loc[2:]) - off) % SZ == 0 and int(loc[2:]) >= off)
+
 def project(raw, prog):
-    """-> (list block, hlist block, timeline data for the oracle)"""
+    """-> (list block, hlist block).  Every store of the updater is in the trace (the scenario is built with instrumented plain stores): a store to a forward
+    pointer is a model step 'U loc val' (the driver checks that it is the store the model issues at that point, so the order 'initialise, then publish' is checked,
+    not assumed); stores to other fields only occupy a slot of the FIFO store buffer."""
     m = re.search(r'^- layout ent (\d+) l (\d+) h (\d+)', raw, flags=re.M)
     if not m or (int(m.group(1)), int(m.group(2)), int(m.group(3))) != (SZ, OL, OH): return None
     up = prog.split('/')[0]; lops = []; hops = []; i = 0
@@ -33,23 +38,22 @@ def project(raw, prog):
         elif c == 'x': hops.append('d%d' % (int(up[i + 1]) + 2)); i += 2
         else: i += 1
     L = ['T ' + ' '.join(lops)]; H = ['T ' + ' '.join(hops)]
-    pend = []; two = False         # which structure each buffered updater store belongs to
+    pend = []
     for l in raw.splitlines():
         p = l.replace(' (fwd)', '').split()
         if len(p) < 3 or not p[0].isdigit(): continue
         t, k = p[0], p[1]
-        if t == '0':
-            # the private initialising store of a new node is issued first (model: one FIFO buffer); it becomes visible, at the latest, together with
-            # the publication store that follows it - no reader can reach the node before that
-            if k == 'call' and p[2] in ('add', 'addtail', 'replace'): L.append('U'); two = True
-            elif k == 'call' and p[2] == 'hadd': H.append('U'); two = True
-            elif k == 'call' and p[2] in ('del', 'hdel'): two = False
-            elif k == 'store' and (p[2] == 'LH+0' or (p[2].startswith('E+') and (int(p[2][2:]) - OL) % SZ == 0)): L.append('U'); pend.append((L, two))
-            elif k == 'store' and (p[2] == 'HH+0' or (p[2].startswith('E+') and (int(p[2][2:]) - OH) % SZ == 0)): H.append('U'); pend.append((H, two))
-            elif k == 'flush' and pend:
-                b, tw = pend.pop(0); b += ['F', 'F'] if tw else ['F']
-        elif k == 'load' and (p[2] in ('LH+0', 'HH+0') or p[2].startswith('E+')):
-            off = OL if (p[2] == 'LH+0' or (p[2].startswith('E+') and (int(p[2][2:]) - OL) % SZ == 0)) else OH if (p[2] == 'HH+0' or (p[2].startswith('E+') and (int(p[2][2:]) - OH) % SZ == 0)) else None
+        if t == '0' and k == 'store':
+            blk = None
+            for B, off in ((L, OL), (H, OH)):
+                if is_next(p[2], off):
+                    v = nodeid(p[3][2:], off); B.append('U %s %s' % (nodeid(p[2], off), v if v is not None else 999)); blk = B
+            pend.append(blk)
+        elif t == '0' and k == 'flush' and pend:
+            b = pend.pop(0)
+            if b is not None: b.append('F')
+        elif t != '0' and k == 'load' and (p[2] in ('LH+0', 'HH+0') or p[2].startswith('E+')):
+            off = OL if is_next(p[2], OL) else OH if is_next(p[2], OH) else None
             if off is None: continue                                    # load of the payload (magic)
             loc = nodeid(p[2], off); v = nodeid(p[-1], off)
             (L if off == OL else H).append('R %s %s %s' % (t, loc, v if v is not None else 999))
@@ -57,23 +61,24 @@ def project(raw, prog):
     return L, H
 
 def timeline(raw):
-    """content of the list and of the hlist after every event index (changes take effect when the publication / unlink store is flushed)"""
+    """content of the list and of the hlist after every event index: the chain of forward pointers in committed memory (a store takes effect when it is flushed)"""
     ev = [l.split() for l in raw.splitlines() if l and l[0].isdigit()]
-    lst = []; hl = []; states = []; cur = None; pend = []; withn = None
+    mem = {'LH+0': '&LH+0'}; states = []
+    def chain(head, off):
+        out = []; cur = head
+        for _ in range(40):
+            v = mem.get(cur, '0')
+            if v in ('&' + head, '0'): break
+            mm = re.match(r'&E\+(\d+)$', v)
+            if not mm or (int(mm.group(1)) - off) % SZ: out.append(-1); break
+            out.append((int(mm.group(1)) - off) // SZ); cur = 'E+' + mm.group(1)
+        return out
+    lst = []; hl = []
     for p in ev:
-        t, k = p[0], p[1]
-        if t == '0' and k == 'call' and p[2] in ('add', 'addtail', 'del', 'replace', 'hadd', 'hdel'): cur = (p[2], int(p[3]))
-        elif t == '0' and k == 'note' and p[2] == 'with': withn = int(p[3])
-        elif t == '0' and k == 'store' and cur and (p[2] in ('LH+0', 'HH+0') or p[2].startswith('E+')): pend.append((cur, withn))
-        elif t == '0' and k == 'flush' and pend:
-            (op, n), w = pend.pop(0)
-            if op == 'add': lst = [n] + lst
-            elif op == 'addtail': lst = lst + [n]
-            elif op == 'del': lst = [x for x in lst if x != n]
-            elif op == 'replace': lst = [w if x == n else x for x in lst]
-            elif op == 'hadd': hl = [n] + hl
-            elif op == 'hdel': hl = [x for x in hl if x != n]
-        states.append((list(lst), list(hl)))
+        if p[1] == 'flush' and len(p) > 3:
+            mem[p[2]] = p[3][2:]
+            lst = chain('LH+0', OL); hl = chain('HH+0', OH)
+        states.append((lst, hl))
     return ev, states
 
 def oracle(prog, s, cl, raw):
@@ -108,7 +113,7 @@ def oracle(prog, s, cl, raw):
 def run(ctx):
     ctx.cov['source_hash'] = source_hash(FILES)
     prove(ctx)
-    impl = build_scenario(ctx, 'scen_list', 'scen_list.c')
+    impl = build_scenario(ctx, 'scen_list', 'scen_list.c', plain=True)
     model = build_model_driver(ctx, 'rculist', 'ExtractRcuList.v', 'rculist_driver.ml')
     if impl:
         cases = [c for c in corpus('C18') if len(c) == 2]
@@ -119,7 +124,9 @@ def run(ctx):
                     for k0 in (0, 3, 8, 14):
                         cases.append((prog, '0a' * k0 + v * point + '>0a' * (1 + point % 3) + v * 3 + '>0a>0a'))
             for point in range(1, 30, 2): cases.append((prog, parking(th, point, 1, '0', point % 2)))
-        n = 500 if ctx.quick() else 6000
+            # the updater suspended after each of its stores (plain ones included), all of them visible, while every reader does one whole traversal
+            for point in range(1, 70 if ctx.quick() else 120): cases.append((prog, '0a' * point + ''.join('>' + v for v in th[1:])))
+        n = 700 if ctx.quick() else 6000
         while len(cases) < n:
             prog = ctx.rng.choice(PROGS); th = [str(i) for i in range(prog.count('/') + 1)]
             cases.append((prog, bursty(ctx.rng, th, lo=40, hi=300, flush=ctx.rng.choice([0.0, 0.1, 0.4]), means=(1, 2, 4, 9))))
@@ -162,7 +169,7 @@ def run(ctx):
 
 def replay(ctx, rp):
     f = rp.get('failing_input') or {}
-    impl = build_scenario(ctx, 'scen_list', 'scen_list.c')
+    impl = build_scenario(ctx, 'scen_list', 'scen_list.c', plain=True)
     if not impl or not f: print('nothing to replay'); return 2
     rc, raw = run_many([[impl, f['prog'], f['schedule']]])[0]
     print(raw[-3000:]); o = oracle(f['prog'], f['schedule'], None, raw); print('verdict:', o or 'no oracle violation'); return 1 if o else 0
